@@ -59,6 +59,10 @@ func genMintParams(r *Rng, extreme bool) minttypes.Params {
 				coef = big.NewInt(0) // rejected by validatePhases
 			}
 		}
+		if i > 0 && r.Chance(25) {
+			// adjacent phases with the same inflation rate (a valid list; the provision still has to be recomputed)
+			infl = phases[i-1].Inflation.BigInt()
+		}
 		phases = append(phases, minttypes.Phase{Inflation: decFromRaw(infl), YearCoefficient: decFromRaw(coef)})
 	}
 	ex := sdkmath.NewInt(0)
@@ -185,6 +189,23 @@ func runMint(seed uint64, n int, out *Out) {
 				curStep = m.PhaseStep
 				phaseMinted = sdkmath.ZeroInt()
 				phaseProv = m.PhaseProvisions
+				if m.PhaseStep >= 1 && int(m.PhaseStep) <= len(p.Phases) {
+					// the provision of the phase as the property states it, computed here from the supply before this
+					// block: inflation x (supply at phase start - excluded amount) x phase length in years
+					ph := p.Phases[m.PhaseStep-1]
+					base := supBefore.Sub(p.ExcludeAmount)
+					if base.IsNegative() {
+						base = sdkmath.ZeroInt()
+					}
+					want := ph.Inflation.MulInt(base).Mul(ph.YearCoefficient)
+					if m.PhaseProvisions.Sub(want).Abs().GT(sdkmath.LegacyOneDec()) && !ph.Inflation.IsNegative() {
+						out.Fail(MonFail{Property: "C13", Monitor: "phase_provision_formula", Class: "beginblock", History: h,
+							Detail: fmt.Sprintf("height %d enters phase %d (inflation %s, %s years) with supply %s, excluded %s: provision %s, expected %s", height, m.PhaseStep, ph.Inflation, ph.YearCoefficient, supBefore, p.ExcludeAmount, m.PhaseProvisions, want)})
+					}
+					// the phase totals below are compared with the provision the property defines, not with the stored one
+					phaseProv = want
+					out.Count("phase.provision_checked")
+				}
 				phaseBlocksSeen = 0
 				out.Count(fmt.Sprintf("phase.enter.%d", b2i(m.PhaseStep == -1)))
 			}
